@@ -7,11 +7,26 @@
     [Diff old new = None] is Go's nil delta ("nothing to send").
 
     Not a theorem: "Diff never modifies its arguments" (inherent in a functional model; checked on the
-    implementation by the harness) and "every delta survives JSON serialisation" (deltas are [json] terms
-    by construction; the harness checks Marshal/Unmarshal on every generated delta). *)
-From Coq Require Import List ZArith String.
+    implementation by the harness).
+
+    Second part of the file (from [roundtrip_atoms_go] on): the same functions over an ABSTRACT scalar domain
+    (DiffMerge/GModel.v: [val A], operations [atom_ops A], laws [atom_laws]: decidable equality standing for
+    Go's [==] / bytes.Equal, the pass-through classification of markReplaced, comparability, how an index is
+    written and read back).  The server's Go-typed values and the client's JSON values are two instances;
+    "every delta survives JSON serialisation" is [roundtrip_serialised_go/js]: the delta computed on the
+    server's values, with its leaves serialised by ANY map that keeps pass-through scalars pass-through and
+    index numbers readable ([atom_hom]; encoding/json on leaves is one, DiffMerge/GInst.v), merges the
+    client's serialised old value into the serialised new value.
+    [fix4 = false] is diff.diffMap as it is in the tree, [fix4 = true] the repaired one of patches/C03-fix-4.patch;
+    [vwf_gen strict]: object keys unique, a "__key" is a comparable scalar or (unless [strict]) nil.  The
+    hypothesis [fix4 || strict = true] reads: the current code on the strict domain, or the repaired code
+    with explicit nil keys allowed.  [roundtrip_nil_key_refuted]: the current code off the strict domain. *)
+From Coq Require Import List ZArith String Bool.
 From Thunder Require Import Lib.Json Lib.JsonNorm DiffMerge.Model DiffMerge.ProofsCompress DiffMerge.ProofsMergeGo
      DiffMerge.ProofsMain DiffMerge.ProofsSelf DiffMerge.ProofsJS.
+From Thunder Require Import DiffMerge.GModel DiffMerge.GBase DiffMerge.GMergeGo DiffMerge.GMain DiffMerge.GJS DiffMerge.GSelf
+     DiffMerge.GCompress DiffMerge.GArray DiffMerge.GSer DiffMerge.GExact DiffMerge.GReorder DiffMerge.GLocal DiffMerge.GClients
+     DiffMerge.GWellFormed DiffMerge.GSerClients DiffMerge.GInst DiffMerge.GWitness.
 Import ListNotations.
 Open Scope string_scope.
 
@@ -73,3 +88,246 @@ Example ex_merge :
   = Some (norm (strip ex_new))
   /\ norm (match Diff ex_old ex_new with Some d => MergeJS (strip ex_old) d | None => JNull end) = norm (strip ex_new).
 Proof. split; vm_compute; reflexivity. Qed.
+
+
+(** * The same over an abstract scalar domain *)
+
+(** Round trip, Go merge, any scalar domain with decidable equality. *)
+Theorem roundtrip_atoms_go :
+  forall (A : Type) (O : atom_ops A), atom_laws O -> forall strict : bool, fix4 || strict = true ->
+  forall old new : val A, vwf_gen strict old = true -> vwf_gen strict new = true ->
+    match VDiff old new with
+    | None => vjeq (vstrip old) (vstrip new)
+    | Some d => exists r, VMerge (vstrip old) d = Some r /\ vjeq r (vstrip new)
+    end.
+Proof. intros A O L strict Hm old new Ho Hn. exact (vroundtrip_go_all L strict Hm new old Ho Hn). Qed.
+Print Assumptions roundtrip_atoms_go.
+
+Theorem roundtrip_atoms_js :
+  forall (A : Type) (O : atom_ops A), atom_laws O -> forall strict : bool, fix4 || strict = true ->
+  forall old new : val A, vwf_gen strict old = true -> vwf_gen strict new = true ->
+    match VDiff old new with
+    | None => vjeq (vstrip old) (vstrip new)
+    | Some d => vjeq (VMergeJS (vstrip old) d) (vstrip new)
+    end.
+Proof. intros A O L strict Hm old new Ho Hn. exact (vroundtrip_js_all L strict Hm new old Ho Hn). Qed.
+Print Assumptions roundtrip_atoms_js.
+
+(** Every delta survives JSON serialisation: Diff on the server's values, merge on the client's. *)
+Theorem roundtrip_serialised_go :
+  forall (A B : Type) (OA : atom_ops A) (OB : atom_ops B), atom_laws OA ->
+  forall f : A -> B, atom_hom OA OB f ->
+  forall strict : bool, @fix4 A OA || strict = true ->
+  forall old new : val A, vwf_gen strict old = true -> vwf_gen strict new = true ->
+    match VDiff old new with
+    | None => vjeq (vmap f (vstrip old)) (vmap f (vstrip new))
+    | Some d => exists r, VMerge (vmap f (vstrip old)) (vmap f d) = Some r /\ vjeq r (vmap f (vstrip new))
+    end.
+Proof. intros A B OA OB LA f H strict Hm. exact (ser_roundtrip_go_all LA f H strict Hm). Qed.
+Print Assumptions roundtrip_serialised_go.
+
+Theorem roundtrip_serialised_js :
+  forall (A B : Type) (OA : atom_ops A) (OB : atom_ops B), atom_laws OA ->
+  forall f : A -> B, atom_hom OA OB f ->
+  forall strict : bool, @fix4 A OA || strict = true ->
+  forall old new : val A, vwf_gen strict old = true -> vwf_gen strict new = true ->
+    match VDiff old new with
+    | None => vjeq (vmap f (vstrip old)) (vmap f (vstrip new))
+    | Some d => vjeq (VMergeJS (vmap f (vstrip old)) (vmap f d)) (vmap f (vstrip new))
+    end.
+Proof. intros A B OA OB LA f H strict Hm. exact (ser_roundtrip_js_all LA f H strict Hm). Qed.
+Print Assumptions roundtrip_serialised_js.
+
+(** encoding/json on the leaves of Go-typed values is such a map (instances of DiffMerge/GInst.v, the ones the
+    harness evaluates). *)
+Theorem json_leaves_hom : forall f1 f2, atom_laws (sops f1) /\ atom_laws (wops f2) /\ atom_hom (sops f1) (wops f2) ser.
+Proof. intros f1 f2. exact (conj (sops_laws f1) (conj (wops_laws f2) (ser_hom f1 f2))). Qed.
+Print Assumptions json_leaves_hom.
+
+(** The current diffMap off the strict domain: an explicit nil "__key" facing an absent one puts the
+    pseudo-field into the delta; merge.Merge then fails, or both clients keep a "__key" field. *)
+Theorem roundtrip_nil_key_refuted :
+  (exists old new d, vwf (O := sops false) old = true /\ vwf (O := sops false) new = true
+     /\ VDiff (O := sops false) old new = Some d
+     /\ VMerge (O := wops false) (vmap ser (vstrip old)) (vmap ser d) = None)
+  /\ (exists old new d r, vwf (O := sops false) old = true /\ vwf (O := sops false) new = true
+     /\ VDiff (O := sops false) old new = Some d
+     /\ VMerge (O := wops false) (vmap ser (vstrip old)) (vmap ser d) = Some r
+     /\ VMergeJS (O := wops false) (vmap ser (vstrip old)) (vmap ser d) = r
+     /\ ~ vjeq r (vmap ser (vstrip new))).
+Proof. exact nil_key_witness. Qed.
+Print Assumptions roundtrip_nil_key_refuted.
+
+(** "A nil diff indicates that the old and new objects are equal" - as an equivalence, keys included. *)
+Theorem diff_nil_iff_equal :
+  forall (A : Type) (O : atom_ops A), atom_laws O ->
+  forall old new : val A, vwf_strict old = true -> vwf_strict new = true -> (VDiff old new = None <-> vjeq old new).
+Proof. intros A O L. exact (vdiff_none_iff L). Qed.
+Print Assumptions diff_nil_iff_equal.
+
+(** ... one direction of which holds with explicit nil keys too (self-diff, for equal values). *)
+Theorem diff_equal_is_nil :
+  forall (A : Type) (O : atom_ops A), atom_laws O -> forall strict : bool,
+  forall old new : val A, vwf_gen strict old = true -> vwf_gen strict new = true -> vjeq old new -> VDiff old new = None.
+Proof. intros A O L strict old new Ho Hn Hj. exact (vjeq_diff_none L strict new old Ho Hn Hj). Qed.
+Print Assumptions diff_equal_is_nil.
+
+(** StripKey is idempotent, leaves no "__key" anywhere, and fixes exactly the key-free values. *)
+Theorem stripkey_idempotent : forall (A : Type) (v : val A), vstrip (vstrip v) = vstrip v.
+Proof. intros A. exact vstrip_idem. Qed.
+Print Assumptions stripkey_idempotent.
+
+Theorem stripkey_removes_keys :
+  forall (A : Type) (v : val A), vno_key (vstrip v) = true /\ (vno_key v = true -> vstrip v = v).
+Proof. intros A v. exact (conj (vstrip_no_key v) (vstrip_fixed v)). Qed.
+Print Assumptions stripkey_removes_keys.
+
+(** Locality.  Two objects with the same "__key": the delta is nil or an object delta that has, for every
+    field name, exactly the entry [field_delta] says (removal marker / nested delta / replacement / nothing) ... *)
+Theorem object_delta_exact :
+  forall (A : Type) (O : atom_ops A), atom_laws O ->
+  forall o n : list (string * val A),
+  vwf_strict (VObj o) = true -> vwf_strict (VObj n) = true -> veqb (vget_key o) (vget_key n) = true ->
+  (VDiff (VObj o) (VObj n) = None \/ exists d, VDiff (VObj o) (VObj n) = Some (VObj d))
+  /\ forall k, lookup k (entries (VDiff (VObj o) (VObj n))) = field_delta o n k.
+Proof. intros A O L. exact (vobject_delta_exact L). Qed.
+Print Assumptions object_delta_exact.
+
+(** ... so a field is missing from the delta exactly when it did not change (absent from both, or equal) ... *)
+Theorem object_field_absent_iff :
+  forall (A : Type) (O : atom_ops A), atom_laws O ->
+  forall (o n : list (string * val A)) (k : string),
+  vwf_strict (VObj o) = true -> vwf_strict (VObj n) = true -> veqb (vget_key o) (vget_key n) = true ->
+  (lookup k (entries (VDiff (VObj o) (VObj n))) = None <-> orel vjeq (lookup k o) (lookup k n)).
+Proof. intros A O L. exact (vobject_field_absent_iff L). Qed.
+Print Assumptions object_field_absent_iff.
+
+(** ... and objects with different keys are resent whole. *)
+Theorem object_key_change :
+  forall (A : Type) (O : atom_ops A) (o n : list (string * val A)),
+  veqb (vget_key o) (vget_key n) = false -> VDiff (VObj o) (VObj n) = Some (VArr [vstrip (VObj n)]).
+Proof. intros A O. exact vobject_key_change. Qed.
+Print Assumptions object_key_change.
+
+(** Lists: the "$" entry is there exactly when the index list is not the identity on the old list, and
+    holds its compression; entry "i" is the delta of the i-th new element against the old element it was
+    matched with (nil if none). *)
+Theorem array_delta_exact :
+  forall (A : Type) (O : atom_ops A) (o n : list (val A)),
+  let idx := vcompute_reorder_indices o n in
+  let d := entries (VDiff (VArr o) (VArr n)) in
+  (VDiff (VArr o) (VArr n) = None \/ VDiff (VArr o) (VArr n) = Some (VObj d))
+  /\ lookup dollar d = (if Nat.eqb (List.length o) (List.length n) && order_is_identity 0 idx then None
+                        else Some (VArr (vcompress idx)))
+  /\ forall i v j, nth_error n i = Some v -> nth_error idx i = Some j -> lookup (dec i) d = VDiff (voldI o j) v.
+Proof. intros A O. exact varray_delta_exact. Qed.
+Print Assumptions array_delta_exact.
+
+(** computeReorderIndices, declaratively: entry i is the least old position with the reorder key of the
+    i-th new element that no earlier entry took; -1 ([None]) exactly when there is none. *)
+Theorem reorder_indices_spec :
+  forall (A : Type) (O : atom_ops A), atom_laws O ->
+  forall (o n : list (val A)) (i : nat) (x : val A), nth_error n i = Some x ->
+  match nth_error (vcompute_reorder_indices o n) i with
+  | Some e => entry_ok (map vreorder_key o) (taken (vcompute_reorder_indices o n) i) (vreorder_key x) e
+  | None => False
+  end.
+Proof. intros A O L. exact (vreorder_indices_spec L). Qed.
+Print Assumptions reorder_indices_spec.
+
+(** An element matched with an old object is diffed field by field, never resent whole. *)
+Theorem matched_objects_not_resent :
+  forall (A : Type) (O : atom_ops A), atom_laws O ->
+  forall (o n : list (val A)) (i j : nat) (a b : list (string * val A)),
+  vwf_strict (VArr o) = true -> vwf_strict (VArr n) = true ->
+  nth_error n i = Some (VObj b) -> nth_error (vcompute_reorder_indices o n) i = Some (Some j) ->
+  nth j o VNull = VObj a ->
+  VDiff (VObj a) (VObj b) = None \/ exists d, VDiff (VObj a) (VObj b) = Some (VObj d).
+Proof. intros A O L. exact (vmatched_objects_not_resent L). Qed.
+Print Assumptions matched_objects_not_resent.
+
+(** compressReorderIndices: the runs expand to the index list, no run can absorb its successor, and every
+    run list with these two properties is the one produced (the encoding is canonical). *)
+Theorem reorder_runs_canonical :
+  forall idx : list (option nat),
+    expand (runs_of idx) = idx /\ Forall run_ok (runs_of idx) /\ maximal (runs_of idx)
+    /\ forall rs, Forall run_ok rs -> maximal rs -> expand rs = idx -> rs = runs_of idx.
+Proof.
+  intros idx. exact (conj (expand_runs_of idx) (conj (runs_of_ok idx) (conj (runs_of_maximal idx)
+    (fun rs Hok Hm He => eq_trans (eq_sym (runs_of_unique rs Hok Hm)) (f_equal runs_of He))))).
+Qed.
+Print Assumptions reorder_runs_canonical.
+
+Theorem reorder_indices_roundtrip_atoms :
+  forall (A : Type) (O : atom_ops A), atom_laws O -> forall idx : list (option nat), vuncompress (vcompress idx) = Some idx.
+Proof. intros A O L. exact (vuncompress_compress L). Qed.
+Print Assumptions reorder_indices_roundtrip_atoms.
+
+(** The two clients agree on EVERY well-formed delta ([vdwf], DiffMerge/GClients.v), whoever produced it ... *)
+Theorem clients_agree_on_well_formed_deltas :
+  forall (A : Type) (O : atom_ops A) (d p : val A),
+  vkeys_ok p = true -> vdwf d p = true ->
+  exists r, VMerge p d = Some r /\ vjeq r (VMergeJS p d).
+Proof. intros A O. exact vclients_agree. Qed.
+Print Assumptions clients_agree_on_well_formed_deltas.
+
+(** ... what the server sends is one (after serialisation, for what the client holds) ... *)
+Theorem serialised_delta_well_formed :
+  forall (A B : Type) (OA : atom_ops A) (OB : atom_ops B), atom_laws OA ->
+  forall f : A -> B, atom_hom OA OB f ->
+  forall strict : bool, @fix4 A OA || strict = true ->
+  forall (old new d : val A), vwf_gen strict old = true -> vwf_gen strict new = true -> VDiff old new = Some d ->
+  vkeys_ok (vmap f (vstrip old)) = true /\ vdwf (vmap f d) (vmap f (vstrip old)) = true.
+Proof. intros A B OA OB LA f H strict Hm. exact (ser_delta_well_formed LA f H strict Hm). Qed.
+Print Assumptions serialised_delta_well_formed.
+
+(** ... and outside the well-formed deltas they differ, in each of these ways (replayed on the code by
+    corpus/C03/clients-*.json). *)
+Theorem clients_differ_on_ill_formed_deltas :
+  (* removing a field the client does not have: merge.go rejects, merge.ts ignores *)
+  (exists p d, VMerge (O := wops false) p d = None /\ VMergeJS (O := wops false) p d = p)
+  (* an object delta for a scalar: merge.go answers nil, merge.ts builds an object *)
+  /\ (exists p d r, VMerge (O := wops false) p d = Some VNull /\ VMergeJS (O := wops false) p d = r /\ r <> VNull)
+  (* a null entry: merge.go rejects, merge.ts stores null *)
+  /\ (exists p d r, VMerge (O := wops false) p d = None /\ VMergeJS (O := wops false) p d = r)
+  (* an index beyond the list in "$": merge.go panics, merge.ts stores undefined *)
+  /\ (exists p d r, VMerge (O := wops false) p d = None /\ VMergeJS (O := wops false) p d = r).
+Proof. exact clients_differ_witness. Qed.
+Print Assumptions clients_differ_on_ill_formed_deltas.
+
+(** Non-vacuity of the abstract part: Go-typed values (int64 and float64 ones differ for Diff, [[]byte] and a
+    named string are wrapped, a fractional float), the delta, its serialisation, and both merges. *)
+Definition gex_old : val satom :=
+  VObj [("n", VAtom (SNum 0 (DInt 1))); ("b", VAtom (SBytes "aGk=")); ("e", VAtom (SNamed "RED"));
+        ("xs", VArr [VObj [("__key", VAtom (SNum 0 (DInt 1))); ("f", VAtom (SNum 11 (DFrac 5 1)))]; VAtom (SStr "x")])].
+Definition gex_new : val satom :=
+  VObj [("n", VAtom (SNum 11 (DInt 1))); ("b", VAtom (SBytes "aG8=")); ("e", VAtom (SNamed "RED"));
+        ("xs", VArr [VAtom (SStr "x"); VObj [("__key", VAtom (SNum 0 (DInt 1))); ("f", VAtom (SNum 11 (DFrac 7 1)))]])].
+Example gex_wf : vwf_strict (O := sops false) gex_old = true /\ vwf_strict (O := sops false) gex_new = true.
+Proof. split; reflexivity. Qed.
+Example gex_delta :
+  option_map (vmap ser) (VDiff (O := sops false) gex_old gex_new) =
+  Some (VObj [("n", VAtom (WNum (DInt 1))); ("b", VArr [VAtom (WStr "aG8=")]);
+              ("xs", VObj [("$", VArr [VAtom (WNum (DInt 1)); VAtom (WNum (DInt 0))]);
+                           ("1", VObj [("f", VAtom (WNum (DFrac 7 1)))])])]).
+Proof. vm_compute. reflexivity. Qed.
+Example gex_merge :
+  match VDiff (O := sops false) gex_old gex_new with
+  | Some d => option_map vnorm (VMerge (O := wops false) (vmap ser (vstrip gex_old)) (vmap ser d)) = Some (vnorm (vmap ser (vstrip gex_new)))
+              /\ vnorm (VMergeJS (O := wops false) (vmap ser (vstrip gex_old)) (vmap ser d)) = vnorm (vmap ser (vstrip gex_new))
+              /\ vdwf (O := wops false) (vmap ser d) (vmap ser (vstrip gex_old)) = true
+  | None => False
+  end.
+Proof. vm_compute. repeat split; reflexivity. Qed.
+(** with the repaired diffMap an explicit nil key against an absent one is no change *)
+Example gex_nil_key_fixed :
+  VDiff (O := sops true) (VObj [("__key", VNull); ("a", VAtom (SNum 0 (DInt 1)))]) (VObj [("a", VAtom (SNum 0 (DInt 1)))]) = None
+  /\ vwf (O := sops true) (VObj [("__key", VNull); ("a", VAtom (SNum 0 (DInt 1)))]) = true.
+Proof. split; reflexivity. Qed.
+(** reorder indices of a list with duplicate keys and unmatched elements, and their runs *)
+Example gex_reorder :
+  let k (z : Z) := VObj [("__key", VAtom (SNum 0 (DInt z)))] in
+  vcompute_reorder_indices (O := sops false) [k 1%Z; k 1%Z; k 2%Z; VAtom (SStr "s")] [k 1%Z; k 2%Z; k 3%Z; k 1%Z; k 1%Z; VAtom (SStr "s")]
+  = [Some 0; Some 2; None; Some 1; None; Some 3]
+  /\ runs_of [Some 0; Some 1; Some 2; None; Some 5; Some 7; Some 8] = [RRun 0 3; RNeg; RRun 5 1; RRun 7 2].
+Proof. split; reflexivity. Qed.
